@@ -246,6 +246,10 @@ fn test_hist(c: &HCase) -> TestResult {
             HAct::Base(Act::Compress) => d.compress(&truth)?,
             HAct::Base(Act::ConsumeOutput(k)) => d.consume_output(*k as usize)?,
             HAct::Base(Act::Advance) | HAct::Base(Act::ForceAdvance) => c02::maybe_advance(&mut d, &order, &truth)?,
+            HAct::Base(Act::Reselect) => {
+                let cur = d.p.active_stream();
+                let _ = d.p.set_stream(cur);
+            },
             HAct::Select(sel) => {
                 let cur = d.active();
                 let want = accepts(&order, cur, *sel);
